@@ -132,7 +132,7 @@ def run(tier, seed):
     rng = random.Random(seed)
     chk = dplib.DataPathCheck(PROP, tier, seed)
     design(chk, quick)
-    c01.standard_families(chk, tier, seed, rng, nrand_quick=60, nrand_thorough=1500, explore=not quick)
+    c01.standard_families(chk, tier, seed, rng, nrand_quick=60, nrand_thorough=1500, explore=not quick, matrix=(2, True))
     n = 120 if quick else 4000
     scs = corner("v1") + corner("v2")
     for i in range(n):
